@@ -216,8 +216,9 @@ func c15SchedScenario(c *fw.Ctx, sp c15Spec) schedScenario {
 }
 
 func c15SchedRun(c *fw.Ctx) {
-	for _, sp := range c15Specs() {
-		exploreSched(c, c15SchedScenario(c, sp))
+	specs := c15Specs()
+	for i, sp := range specs {
+		c.Share(len(specs)-i, func() { exploreSched(c, c15SchedScenario(c, sp)) })
 	}
 }
 
